@@ -17,7 +17,8 @@ META = {
                  'model of graphson.py + differential execution against the real serializers/readers through json.dumps/loads',
     'level_text': 'C40_roundtrip_23 / C40_roundtrip_1 (deserialize (serialize v) = the equal value, GraphSON 1/2/3, every supported value '
                   'tree of any depth), C40_duration_roundtrip (every timedelta, negative and sub-second included), C40_base64_roundtrip '
-                  '(every byte string), C40_dispatch_subclass; pre-repair duration/dispatch code refuted by computed witnesses.',
+                  '(every byte string), C40_dispatch; pre-repair duration/dispatch code refuted by computed witnesses; C40_full_statement (sets of '
+                  'blobs) refuted (open finding C40-3), C40_roundtrip_23 is the partial theorem excluding exactly unhashable members/keys.',
     'level_note': 'Partial: str(Decimal)/Decimal(), str(UUID)/UUID(), isoformat/strftime/strptime, WKT and repr(float) through JSON are '
                   'Section variables with ASSUMED round-trip laws (exercised, not proved). Hand-written model tied by correspondence only. '
                   'Not covered: aware datetimes/times, IP address objects (come back as str), UDTs/namedtuples (need cluster metadata), '
@@ -284,6 +285,8 @@ def run(ctx):
 
 
 def replay(ctx, rp):
+    import shutil
+    shutil.rmtree(ctx.scratch, ignore_errors=True)       # replay needs no scratch space
     import_cluster()
     case = rp.get('case') or {}
     if not case.get('val'):
